@@ -101,6 +101,9 @@ func (r *Record) decode(pd packetDecoder) (err error) {
 		return err
 	}
 
+	if numHeaders > int64(pd.remaining()) {
+		return ErrInsufficientData
+	}
 	if numHeaders >= 0 {
 		r.Headers = make([]*RecordHeader, numHeaders)
 	}
